@@ -100,7 +100,7 @@ void mt_ok(void) { mv_verdict(MVV_OK, "ok"); }
 /* ---------------- case decoding ---------------- */
 static int parse_case(const uint8_t * b, size_t n, mt_case * c) {
   if (n < 24 || memcmp(b, "MVC1", 4)) return -1;
-  c->prop = b[4]; c->flags = b[5] & 1; c->tier = (b[5] >> 1) & 1;
+  c->prop = b[4]; c->flags = b[5] & 1; c->tier = (b[5] >> 1) & 1; c->gen = b[6];
   uint32_t seed, l1, l2, l3;
   memcpy(&seed, b + 8, 4); memcpy(&l1, b + 12, 4); memcpy(&l2, b + 16, 4); memcpy(&l3, b + 20, 4);
   if ((size_t)24 + l1 + l2 + l3 > n) return -1;
